@@ -1,5 +1,6 @@
 mod util;
 mod p_c13;
+mod p_c08;
 mod p_c25;
 mod p_c16;
 mod p_c28;
@@ -63,6 +64,7 @@ fn main() {
     util::silence_panics();
     match a[1].as_str() {
         "c13" => p_c13::run(&o),
+        "c08" => p_c08::run(&o),
         "c25t" => p_c25::run_cells(&o),
         "c25" => p_c25::run(&o),
         "c18" => p_c16::run(&o, 18),
